@@ -7,11 +7,12 @@ wire format
   value : null | true | false | <int> | "text" | {"f": "<float repr>"} | [v, ...] | {"d": [[k, v], ...]}
   node  : {"k":"leaf","ty":T,"req":b,"def":v?} | {"k":"group","whole":b,"fields":[[name,node],...]}
         | {"k":"class","req":b,"imp":path?,"classes":[[path,[[name,node],...]],...]} | {"k":"list","req":b,"item":node}
-        | {"k":"sub","req":b,"choices":[[name,[[name,node],...]],...]}
+        | {"k":"sub","req":b,"choices":[[name,[[name,node],...]],...]} | {"k":"optdc","req":b,"fields":[[name,node],...]}
   ops   : {"op":"spec","fields":[[name,node],...],"load":[[text, value],...]}     sets the current parser + load oracle
           {"op":"validate","cfg":value}
           {"op":"argv","opts":[...],"cfg":value}
           {"op":"table"}
+          {"op":"posopt","enabled":b,"acts":[[dest,positional,hasValue],...],"unk":[token,...]}   `_positional_optionals` + the leftover step
           {"op":"branch","keys":[[level, key],...]}                                 `_is_branch_key` of the parser at `level`
           {"op":"decl","style":S,"key":k,"fields":[{"name","ty","def"?}, ...]}     C07: action table of one style
           {"op":"parse7", ...}                                                      C07: see `parse7`
@@ -22,6 +23,7 @@ wire format
 import Lean.Data.Json
 import Jap.Core.Validate
 import Jap.Core.Styles
+import Jap.Core.ValidateArgv
 
 open Lean Jap.Validate
 
@@ -115,6 +117,9 @@ partial def nodeOfJson (j : Json) : Except String Node := do
   | "sub" =>
     let cs ← (jArr j "choices").mapM choiceOfJson
     pure (.subcommands (jBool j "req") cs)
+  | "optdc" =>
+    let fs ← fieldsOfJson (jArr j "fields")
+    pure (.optGroup (jBool j "req") fs)
   | s => .error ("bad node kind " ++ s)
 partial def fieldsOfJson (xs : List Json) : Except String Fields :=
   xs.mapM (fun (x : Json) => match x with
@@ -298,6 +303,17 @@ def step (st : St) (j : Json) : Json × St :=
       | .ok (.dict kvs) => (rToJson (parseArgv (mkLoad st.load) st.fields opts kvs), st)
       | _ => (Json.mkObj [("bad-cfg", "not a dict")], st)
     | .error _ => (Json.mkObj [("bad-cfg", "missing")], st)
+  | "posopt" =>
+    -- `_positional_optionals`: {"enabled":b,"acts":[[dest,positional,hasValue],...],"unk":[token,...]}
+    let acts := (jArr j "acts").filterMap (fun (x : Json) => match x with
+      | .arr #[.str d, .bool p, .bool h] => some (PAct.mk d p h)
+      | _ => none)
+    let unk := (jArr j "unk").filterMap (fun (x : Json) => match x with
+      | .str s => some s
+      | _ => none)
+    let res := positionalOptionals (jBool j "enabled") acts unk
+    (Json.mkObj [("asg", .arr (res.1.map fun a => Json.arr #[.str a.1, .str a.2]).toArray), ("rest", .arr (res.2.map Json.str).toArray),
+      ("verdict", match leftoverVerdict (jBool j "enabled") acts unk with | .ok _ => "ok" | .error _ => "unrecognized")], st)
   | "decl" =>
     match styleOfString (jStr j "style"), fieldsOfJson7 (jArr j "fields") with
     | .ok sty, .ok fs => (tableToJson (decl sty (jStr j "key") fs), st)
